@@ -94,7 +94,7 @@ theorem ctrl_roundtrip (b0 b1 b2 b3 st s0 s1 s2 s3 : Nat)
   have hst0 : (st == 0) = false := by simp; omega
   have hd : ((decide (1 ≤ st) && decide (st ≤ 7)) || st == 9) = true := by
     rcases hst with ⟨h1, h2⟩ | h <;> simp [*]
-  simp [decode, ctrlEnc, beDec, hst0, hd, mkCtrl]
+  simp [decode, frameOk, decodeCtrl, ctrlEnc, beDec, hst0, hd, mkCtrl]
 
 /-- a control header followed by anything else, or an undefined SType, is not accepted -/
 theorem undefined_stype_rejected (b0 b1 b2 b3 st s0 s1 s2 s3 : Nat) (hst : st = 8 ∨ st ≥ 10) :
@@ -102,7 +102,7 @@ theorem undefined_stype_rejected (b0 b1 b2 b3 st s0 s1 s2 s3 : Nat) (hst : st = 
   have hst0 : (st == 0) = false := by simp; omega
   have hd : ((decide (1 ≤ st) && decide (st ≤ 7)) || st == 9) = false := by
     rcases hst with h | h <;> simp <;> omega
-  simp [decode, ctrlEnc, beDec, hst0, hd]
+  simp [decode, frameOk, decodeCtrl, ctrlEnc, beDec, hst0, hd]
 
 /-! ### the tie to the source -/
 theorem facts_ctrl :
